@@ -80,6 +80,13 @@ func CheckStorageHealth(storage SlabStorage, expectedNumberOfRootSlabs int) (map
 		}
 	}
 
+	// Every referenced slab must be present in storage.
+	for childID, parentID := range parentOf {
+		if _, found := slabs[childID]; !found {
+			return nil, NewSlabNotFoundErrorf(childID, "slab %s referenced by slab %s not found", childID, parentID)
+		}
+	}
+
 	rootsMap := make(map[SlabID]struct{})
 	visited := make(map[SlabID]struct{})
 	var id SlabID
